@@ -433,6 +433,13 @@ class Corr(object):
                         self.res.disagreements.append({'stream': stream, 'case': case,
                                                        'model': 'inside docOK and bodyOK but read(serialize) != canon',
                                                        'real': 'theorem xml_roundtrip_partial'})
+                if len(model) >= 6:
+                    inasc, aholds = (str(model[4]) == 'T'), (str(model[5]) == 'T')
+                    self.res.count('theorem-text-domain-ascii:%s:%s' % (stream, 'inside' if inasc else 'outside'))
+                    if inasc and not aholds:
+                        self.res.disagreements.append({'stream': stream, 'case': case,
+                                                       'model': 'inside docOK, docTextOK, repMarkup(ascii) but read(encode(serialize)) != canon',
+                                                       'real': 'theorem xml_roundtrip_partial'})
                 continue
             if post:
                 model = post(model)
